@@ -66,3 +66,227 @@ class SE:
 class SchemaShim:
     def schema_element(self, name):
         return SE()
+
+
+# ------------------------------------------------------------ vector shims ---
+class BoolVec:
+    """numpy bool 1-d array as the filter code uses it: len, |, &, ~ (also in place), sum, slicing, iteration"""
+
+    def __init__(self, items):
+        self.items = list(items)
+
+    def __len__(self):
+        return len(self.items)
+
+    def __iter__(self):
+        return iter(self.items)
+
+    def __getitem__(self, i):
+        if isinstance(i, slice):
+            return BoolVec(self.items[i])
+        return self.items[i]
+
+    def __or__(self, o):
+        return BoolVec([a or b for a, b in zip(self.items, _bvitems(o, len(self.items)))])
+
+    __ior__ = __or__
+
+    def __and__(self, o):
+        return BoolVec([a and b for a, b in zip(self.items, _bvitems(o, len(self.items)))])
+
+    __iand__ = __and__
+
+    def __invert__(self):
+        return BoolVec([not a for a in self.items])
+
+    def sum(self):
+        n = 0
+        for a in self.items:
+            if a:
+                n += 1
+        return n
+
+    @property
+    def values(self):
+        return self
+
+
+def _bvitems(o, n):
+    if isinstance(o, BoolVec):
+        return o.items
+    if isinstance(o, Col):
+        return o.vec.items
+    raise TypeError("boolean vector expected, got %r" % type(o))
+
+
+class Vec:
+    """numpy value array: elementwise comparison with a scalar gives a BoolVec"""
+
+    def __init__(self, items):
+        self.items = list(items)
+
+    def __len__(self):
+        return len(self.items)
+
+    def _cmp(self, f):
+        return BoolVec([f(a) for a in self.items])
+
+    def __eq__(self, v):
+        return self._cmp(lambda a: a == v)
+
+    def __ne__(self, v):
+        return self._cmp(lambda a: a != v)
+
+    def __lt__(self, v):
+        return self._cmp(lambda a: a < v)
+
+    def __le__(self, v):
+        return self._cmp(lambda a: a <= v)
+
+    def __gt__(self, v):
+        return self._cmp(lambda a: a > v)
+
+    def __ge__(self, v):
+        return self._cmp(lambda a: a >= v)
+
+    def __invert__(self):
+        return BoolVec([not a for a in self.items])
+
+    __hash__ = None
+
+
+class Col:
+    """pandas Series as _column_filter sees it: comparison / isin give a Series whose .values is the mask"""
+
+    def __init__(self, vec):
+        self.vec = vec
+
+    @property
+    def values(self):
+        return self.vec
+
+    def isin(self, vals):
+        return Col(BoolVec([a in vals for a in self.vec.items]))
+
+    def __eq__(self, v):
+        return Col(self.vec == v)
+
+    def __ne__(self, v):
+        return Col(self.vec != v)
+
+    def __lt__(self, v):
+        return Col(self.vec < v)
+
+    def __le__(self, v):
+        return Col(self.vec <= v)
+
+    def __gt__(self, v):
+        return Col(self.vec > v)
+
+    def __ge__(self, v):
+        return Col(self.vec >= v)
+
+    __hash__ = None
+
+
+class Frame:
+    def __init__(self, cols, n):
+        self.cols, self.n = cols, n
+
+    def __len__(self):
+        return self.n
+
+    def __getitem__(self, name):
+        return Col(Vec(self.cols[name]))
+
+
+class NPVec:
+    """np.zeros / np.ones with dtype=bool, as used by _column_filter"""
+    ndarray = NPShim.ndarray
+    searchsorted = NPShim.searchsorted
+
+    @staticmethod
+    def zeros(n, dtype=None):
+        return BoolVec([False] * n)
+
+    @staticmethod
+    def ones(n, dtype=None):
+        return BoolVec([True] * n)
+
+
+# -------------------------------------------------------------- file shims ---
+class Seg:
+    """a run of bytes identified by a tag and a (possibly symbolic) length; content is opaque"""
+
+    def __init__(self, tag, n, value=None):
+        self.tag, self.n, self.value = tag, n, value
+
+    def __len__(self):
+        return self.n
+
+
+class SymFile:
+    """binary file as the writer/reader code uses it: seek/tell/read/write/truncate over a length and a write log"""
+
+    def __init__(self, size, name="f"):
+        self.size0 = size       # length when opened
+        self.size = size
+        self.pos = 0
+        self.writes = []        # (start, end, tag, value)
+        self.reads = []
+        self.closed = False
+        self.name = name
+        self.truncated_to = None
+
+    def __enter__(self):
+        return self
+
+    def __exit__(self, *a):
+        self.closed = True
+        return False
+
+    def close(self):
+        self.closed = True
+
+    def tell(self):
+        return self.pos
+
+    def seek(self, off, whence=0):
+        if whence == 0:
+            self.pos = off
+        elif whence == 1:
+            self.pos = self.pos + off
+        else:
+            self.pos = self.size + off
+        if self.pos < 0:
+            raise OSError("negative seek")
+        return self.pos
+
+    def read(self, n=-1):
+        if n is None or n < 0:
+            end = self.size
+        else:
+            end = min(self.pos + n, self.size)
+        end = max(end, self.pos)
+        r = Seg("read", end - self.pos, value=(self.pos, end))
+        self.reads.append((self.pos, end))
+        self.pos = end
+        return r
+
+    def write(self, data):
+        n = len(data)
+        self.writes.append((self.pos, self.pos + n, getattr(data, "tag", "bytes"), getattr(data, "value", None)))
+        self.pos = self.pos + n
+        if self.pos > self.size:
+            self.size = self.pos
+        return n
+
+    def truncate(self, size=None):
+        if size is None:
+            size = self.pos
+        self.size = size
+        self.truncated_to = size
+        return size
+
+    def flush(self):
+        pass
